@@ -210,9 +210,12 @@ func runC01(c Case) string {
 	if err != nil {
 		return "compile-error:" + firstLine(err.Error())
 	}
-	tree := envToTree(carr(c, "env"))
-	res := xpath.NewCtxFromCurrent(gocontext.Background(), mach, &mockEntry{t: tree}).Run()
-	return showResult(res)
+	first := showResult(xpath.NewCtxFromCurrent(gocontext.Background(), mach, &mockEntry{t: envToTree(carr(c, "env"))}).Run())
+	second := showResult(xpath.NewCtxFromCurrent(gocontext.Background(), mach, &mockEntry{t: envToTree(carr(c, "env"))}).Run())
+	if first != second {
+		return "RERUN-DIFFERS: " + first + " || " + second
+	}
+	return first
 }
 
 func genC01(r *Rng, tier string, n int, emit func(Case)) {
